@@ -69,6 +69,9 @@ def gen(ctx):
         for rule in ("hash:3:2:1:0", "probe:4:3:0:0", "counter:3:0"):
             yield dict(kind="ev1", hist=[[(i * i + 1) % 3 for i in range(N)]], dtype="int32", scale=1, r=r,
                        rule=rule, T=4, memo="False")
+    for _ in range(ctx.n(30, 300)):
+        yield dict(kind="szero", N=rng.randint(3, 8), T=rng.randint(3, 7), memo=rng.choice(["True", "recursive_lit"]), dyn=int(rng.random() < 0.3),
+                   seed=rng.randrange(10 ** 6))
     # arithmetic on the cell index as handed to the rule (exact on Python ints; a fixed-width NumPy integer would wrap)
     for N in ([70, 96] if ctx.tier == "quick" else [64, 65, 70, 96, 130]):
         for dyn in (0, 1):
@@ -121,6 +124,8 @@ def gen(ctx):
 
 
 def line(c):
+    if c["kind"] == "szero":
+        return None
     if c["kind"] == "strides":
         return "index_strides N=%d r=%d" % (c["N"], c["r"])
     if c.get("big"):
@@ -129,6 +134,8 @@ def line(c):
 
 
 def impl(c):
+    if c["kind"] == "szero":
+        return "n/a"
     if c["kind"] == "strides":
         import cellpylib.ca_functions as cf
         return "ok " + fmt.mat(cf._index_strides(np.arange(c["N"]), 2 * c["r"] + 1).tolist())
@@ -139,6 +146,11 @@ def impl(c):
 
 
 def oracle(c):
+    if c["kind"] == "szero":
+        # memoized evolution of a pure, sign-of-zero-sensitive rule on a float automaton holding +0.0 and -0.0:
+        # every appended row is still the synchronous update (bitwise the unmemoized one)
+        from . import c03
+        return c03.oracle(c)
     if c["kind"] == "strides":
         import cellpylib.ca_functions as cf
         N, r = c["N"], c["r"]
@@ -163,6 +175,8 @@ def oracle(c):
 
 
 def nontrivial(c, ans):
+    if c["kind"] == "szero":
+        return True
     if c["kind"] == "strides":
         return c["N"] >= 2
     last = c["hist"][-1]
